@@ -20,6 +20,17 @@ impl Config {
     pub fn ca_refresh_start_up(&self, _j: bool) -> Priority { unimplemented!() }
     pub fn suspend_child_after_inactive_seconds(&self) -> Option<i64> { unimplemented!() }
 }
+pub struct SlowKrillRuntime(pub u8);
+impl CaManager {
+    pub fn cas_repo_sync_single(&self, _c: &CaHandle, _v: u64, _k: &SlowKrillRuntime) -> Result<bool, Error> { unimplemented!() }
+    pub fn ca_sync_parent(&self, _c: &CaHandle, _v: u64, _p: &ParentHandle, _a: &Actor, _k: &SlowKrillRuntime) -> Result<bool, Error> { unimplemented!() }
+    pub fn has_ca(&self, _c: &CaHandle) -> Result<bool, Error> { unimplemented!() }
+}
+impl Config {
+    pub fn requeue_remote_failed(&self) -> Priority { unimplemented!() }
+    pub fn ca_refresh_next(&self) -> Priority { unimplemented!() }
+}
+pub fn in_seconds(_m: i64) -> Priority { unimplemented!() }
 pub fn now() -> Priority { unimplemented!() }
 pub fn in_minutes(_m: i64) -> Priority { unimplemented!() }
 pub fn in_weeks(_m: i64) -> Priority { unimplemented!() }
@@ -58,6 +69,26 @@ pub assume_specification [CertAuth::version] (c: &CertAuth) -> (r: u64);
 pub assume_specification [Config::ca_refresh_start_up] (c: &Config, j: bool) -> (r: Priority);
 pub assume_specification [Config::suspend_child_after_inactive_seconds] (c: &Config) -> (r: Option<i64>);
 impl Config { #[verifier::external_body] pub fn testbed(&self) -> (r: Option<&TestBed>) { unimplemented!() } }
+#[verifier::external_type_specification] #[verifier::external_body] pub struct ExSlowKrillRuntime(SlowKrillRuntime);
+impl SlowKrillRuntime {
+    #[verifier::external_body] pub fn ca_manager(&self) -> (q: &CaManager) { unimplemented!() }
+    #[verifier::external_body] pub fn config(&self) -> (q: &Config) { unimplemented!() }
+    #[verifier::external_body] pub fn system_actor(&self) -> (q: &Actor) { unimplemented!() }
+}
+/// the work of the task was carried out for the committed version it was queued for (ASSUMED meaning of Ok(true) of the drivers;
+/// Ok(false): the task ran before its CA version was committed -- tasks are queued in the pre-save step)
+pub uninterp spec fn repo_synced(ca: CaHandle, version: u64) -> bool;
+pub uninterp spec fn parent_synced(ca: CaHandle, version: u64, parent: ParentHandle) -> bool;
+pub uninterp spec fn ca_hosted(ca: CaHandle) -> bool;
+pub uninterp spec fn parent_known(ca: CaHandle, parent: ParentHandle) -> bool;
+pub assume_specification [CaManager::cas_repo_sync_single] (m: &CaManager, c: &CaHandle, v: u64, k: &SlowKrillRuntime) -> (r: Result<bool, Error>)
+    ensures r == Ok::<bool, Error>(true) ==> repo_synced(*c, v);
+pub assume_specification [CaManager::ca_sync_parent] (m: &CaManager, c: &CaHandle, v: u64, p: &ParentHandle, a: &Actor, k: &SlowKrillRuntime) -> (r: Result<bool, Error>)
+    ensures r == Ok::<bool, Error>(true) ==> parent_synced(*c, v, *p), r is Err && r->Err_0 is CaParentUnknown ==> !parent_known(*c, *p);
+pub assume_specification [CaManager::has_ca] (m: &CaManager, c: &CaHandle) -> (r: Result<bool, Error>) ensures r is Ok ==> r->Ok_0 == ca_hosted(*c);
+pub assume_specification [Config::requeue_remote_failed] (c: &Config) -> (r: Priority);
+pub assume_specification [Config::ca_refresh_next] (c: &Config) -> (r: Priority);
+pub assume_specification [in_seconds] (m: i64) -> (r: Priority);
 pub assume_specification [now] () -> (r: Priority);
 pub assume_specification [in_minutes] (m: i64) -> (r: Priority);
 pub assume_specification [in_weeks] (m: i64) -> (r: Priority);
@@ -69,7 +100,8 @@ def build():
     prelude.strings(U)
     for t in ['CaHandle', 'ParentHandle', 'ResourceClassName', 'RevocationRequest']:
         U.opaque(t, 'Clone')
-    for t in ['Error', 'CaManager', 'CertAuth', 'Actor', 'Priority', 'TaskQueue', 'TestBed']:
+    U.enum('src/commons/error.rs', 'Error', keep=['CaParentUnknown'], derive=[])
+    for t in ['CaManager', 'CertAuth', 'Actor', 'Priority', 'TaskQueue', 'TestBed']:
         U.opaque(t, '')
     U.outside('pub type KrillResult<T> = Result<T, Error>;\npub struct TaTiming { pub mft_next_update_weeks: i64 }\npub struct Config { pub bgp_riswhois_enabled: bool, pub ta_timing: TaTiming }')
     U.outside(OUT)
@@ -83,6 +115,15 @@ def build():
     U.free(U.fn(SCH, None, 'queue_start_tasks', eta=('FatalError',), ensures=[
         ('recurring_tasks_scheduled', '''r is Ok ==> scheduled(tasks_of(*krill), Task::RepublishIfNeeded)
             && scheduled(tasks_of(*krill), Task::RenewObjectsIfNeeded) && scheduled(tasks_of(*krill), Task::UpdateSnapshots)''')]))
+    # a task is finished for good only when its work was done (or can never be done); a premature or failed run is kept
+    U.free(U.fn(SCH, None, 'sync_repo', eta=('FatalError',), ensures=[
+        ('done_only_when_synchronised', 'r is Ok && (r->Ok_0 is Done ==> repo_synced(ca, version))'),
+        ('otherwise_the_task_is_kept', 'r is Ok && (r->Ok_0 is Done || r->Ok_0 is Reschedule)')]))
+    U.free(U.fn(SCH, None, 'sync_parent', eta=('FatalError',), ensures=[
+        ('dropped_only_for_a_ca_or_parent_that_is_gone', 'r is Ok && r->Ok_0 is Done ==> !ca_hosted(ca) || !parent_known(ca, parent)'),
+        ('after_success_the_refresh_recurs', '''r is Ok && r->Ok_0 is FollowUp ==> parent_synced(ca, ca_version, parent)
+            && r->Ok_0->FollowUp_0 == (Task::SyncParent { ca_handle: ca, ca_version, parent })'''),
+        ]))
     follow('renew_objects_if_needed', 'RenewObjectsIfNeeded')
     follow('republish_if_needed', 'RepublishIfNeeded')
     follow('renew_testbed_ta', 'RenewTestbedTa')
